@@ -236,7 +236,9 @@ def u_records(ctx, u):
         ver = rec[1:3]
         forged = [bytes([22]) + ver + (4).to_bytes(2, 'big') + bytes([0, 0, 0, 0]),          # HelloRequest
                   bytes([22]) + ver + (len(recs[0][2]) - 5).to_bytes(2, 'big') + recs[0][2][5:],   # replayed ClientHello
-                  bytes([20]) + ver + b'\x00\x01\x01']                                        # extra ChangeCipherSpec
+                  bytes([20]) + ver + b'\x00\x01\x01',                                       # extra ChangeCipherSpec
+                  bytes([22]) + ver + b'\x00\x00',                                           # handshake record with an empty fragment
+                  bytes([20]) + ver + b'\x00\x00']                                           # empty ChangeCipherSpec record
         for fr in forged:
             _run_fault(ctx, u['proto'], srv_ctx, cli_ctx, T.Fault('inject', idx, extra=fr), 'inject', True, mutual=u['mutual'])
     # inject after the final record (trailing: second clause only)
